@@ -27,7 +27,7 @@ def mc_store(tier, extra_q=(), extra_t=()):
 def l2_batch(seed, count, base=0, **kw):
     out = []
     for i in range(count):
-        nb = [("BucketsSize", 1), ("BucketsSize", 2), ("BucketsSize", 8), ("Capacity", 20), ("BucketsSize", 64)][i % 5]
+        nb = [("BucketsSize", 1), ("BucketsSize", 2), ("BucketsSize", 8), ("Capacity", 20), ("BucketsSize", 64), ("BucketsSize", 3), ("BucketsSize", 100)][i % 7]
         out.append(gen.gen_l2(seed * 1000 + i, idbase=(base + i) * IDSTEP, nb=nb, name="l2_%d" % i,
                               one_bucket=(i % 2 == 0), ballast=(16300 if i % 3 == 1 else 0), **kw))
     return out
@@ -86,7 +86,8 @@ def mc_reloc(tier):
 
 def wl_reloc(tier, seed):
     if tier == "quick":
-        return [("bfs_w16k", [], dict(bfs=gen.bfs_spec("w16k_q", idbase=900 * IDSTEP), max_states=4000, edges_per_file=1200, tlc_jobs=8, match_cfg="MCStore_w16k_q.cfg")),
+        return [("reloc16m", reloc_batch(seed + 5, 1, 40, base=70, width=17 * 1024 * 1024), dict(per_tlc=1, tlc_jobs=1, op_timeout=120, xmx="4g")),
+                ("bfs_w16k", [], dict(bfs=gen.bfs_spec("w16k_q", idbase=900 * IDSTEP), max_states=4000, edges_per_file=1200, tlc_jobs=8, match_cfg="MCStore_w16k_q.cfg")),
                 ("reloc", reloc_batch(seed, 8, 150, base=40), dict(per_tlc=1, tlc_jobs=8)),
                 ("l2", l2_batch(seed + 3, 4, nops=80, base=60), dict(per_tlc=1, tlc_jobs=4))]
     return [("bfs_q", [], dict(bfs=gen.bfs_spec("q", idbase=901 * IDSTEP), max_states=100000, edges_per_file=4000, tlc_jobs=12, match_cfg="MCStore_q.cfg")),
@@ -94,7 +95,8 @@ def wl_reloc(tier, seed):
             ("bfs_w16k3", [], dict(bfs=gen.bfs_spec("w16k_t", idbase=902 * IDSTEP), max_states=40000, edges_per_file=3000, tlc_jobs=12, match_cfg="MCStore_w16k_t.cfg")),
             ("bfs_w2m", [], dict(bfs=gen.bfs_spec("w2m_q", idbase=903 * IDSTEP), max_states=3000, edges_per_file=800, tlc_jobs=12, xmx="6g")),
             ("reloc", reloc_batch(seed, 40, 400, base=300), dict(per_tlc=2, tlc_jobs=8)),
-            ("reloc2m", reloc_batch(seed + 7, 8, 300, base=400, width=2097152), dict(per_tlc=1, tlc_jobs=8)),
+            ("reloc2m", reloc_batch(seed + 7, 8, 300, base=400, width=2097152 + 4096), dict(per_tlc=1, tlc_jobs=8)),
+            ("reloc16m", reloc_batch(seed + 5, 4, 200, base=70, width=17 * 1024 * 1024), dict(per_tlc=1, tlc_jobs=4, op_timeout=120, xmx="4g")),
             ("l2", l2_batch(seed + 3, 30, nops=200, base=500), dict(per_tlc=3, tlc_jobs=8))]
 
 
@@ -206,7 +208,10 @@ def wl_params(tier, seed):
 def wl_multi(tier, seed):
     cnt, nops = (6, 200) if tier == "quick" else (60, 800)
     out = [gen.gen_multi(seed * 1000 + 700 + i, idbase=i * IDSTEP, nops=nops, nmaps=2 + i % 4, name="multi_%d" % i) for i in range(cnt)]
-    return [("multi", out, dict(per_tlc=2 if tier == "quick" else 5, tlc_jobs=8, max_slots=300))]
+    many = [gen.gen_manymaps(seed * 1000 + 780 + i, idbase=(100 + i) * IDSTEP, count=20 if tier == "quick" else 40, kt=gen.KTS[(i + 1) % 5], name="manymaps_%d" % i)
+            for i in range(2 if tier == "quick" else 10)]
+    return [("multi", out, dict(per_tlc=2 if tier == "quick" else 5, tlc_jobs=8, max_slots=300)),
+            ("manymaps", many, dict(per_tlc=1, tlc_jobs=4, max_slots=300))]
 
 
 RO_SIZES = [("BucketsSize", 1), ("BucketsSize", 4), ("BucketsSize", 8), ("BucketsSize", 16), ("Capacity", 12), ("Capacity", 24), ("BucketsSize", 32),
@@ -235,7 +240,7 @@ def wl_twice(tier, seed):
         nb = rng.choice([("BucketsSize", 1), ("BucketsSize", 16), ("BucketsSize", 32), ("BucketsSize", 64), ("Capacity", 100), ("BucketsSize", 1024)])
         bufs = None if i % 2 == 0 else [rng.choice(gen.BUF_PARAMS) for _ in range(3)]
         out.append(gen.gen_twice(seed * 1000 + 900 + i, idbase=i * IDSTEP, nops=nops, nb=nb, kt=gen.KTS[i % 5], bufs=bufs, name="twice_%d" % i,
-                                 nkeys=20 if i % 2 else 3))
+                                 nkeys=20 if i % 2 else 3, tail=(i % 4 == 0)))
     return [("twice", out, dict(per_tlc=2 if tier == "quick" else 5, tlc_jobs=8, max_slots=300))]
 
 
@@ -267,8 +272,10 @@ def wl_conv(tier, seed):
     # byte/string keys that collide, fill their slots exactly and are relocated (same key <=> same bytes
     # must survive record relocation and slot reuse)
     rel = reloc_batch(seed + 11, 4 if tier == "quick" else 24, 150 if tier == "quick" else 400, base=300, kts=("string", "bytes"))
+    same = [gen.gen_samehash(seed * 1000 + 90 + i, idbase=(350 + i) * IDSTEP, kt=["bytes", "string"][i % 2], nops=150 if tier == "quick" else 600,
+                             name="samehash_%d" % i) for i in range(4 if tier == "quick" else 24)]
     return [("conv", convs, dict(per_tlc=1, tlc_jobs=8)), ("typed", typed, dict(per_tlc=3, tlc_jobs=8)),
-            ("reloc", rel, dict(per_tlc=1, tlc_jobs=8))]
+            ("samehash", same, dict(per_tlc=2, tlc_jobs=8)), ("reloc", rel, dict(per_tlc=1, tlc_jobs=8))]
 
 
 def wl_golden(tier, seed):
@@ -356,7 +363,7 @@ def wl_space(tier, seed):
 
 
 PLANS = {
-    "C12": dict(attr=["C12.", "C05.buckets", "C15.bytes"], mc=lambda t: [_mc("MCHash.tla", "MCHash.cfg", workers=2)] + MC_STORE_Q, workloads=wl_golden, assumptions=COMMON_ASSUME),
+    "C12": dict(attr=["C12.", "C05.", "C06.", "C09.fits", "C15.bytes", "C01.result", "C01.outcome"], mc=lambda t: [_mc("MCHash.tla", "MCHash.cfg", workers=2)] + MC_STORE_Q, workloads=wl_golden, assumptions=COMMON_ASSUME),
     "C13": dict(attr=["C13."], mc=lambda t: mc_db(t, d8=True), workloads=wl_wrongtype, assumptions=COMMON_ASSUME),
     "C14": dict(attr=["C14.", "C01.result", "C02.content", "C01.outcome"], mc=lambda t: [_mc("MCBulk.tla", "MCBulk.cfg", workers=2)], workloads=wl_bulk, assumptions=COMMON_ASSUME),
     "C10": dict(attr=["C10.", "C01.result", "C04.items", "C05.content", "C05.nodup", "C02.content", "C01.outcome"], mc=lambda t: [_mc("MCCodec.tla", "MCCodec.cfg", workers=2)], workloads=wl_conv, assumptions=COMMON_ASSUME),
@@ -373,5 +380,7 @@ PLANS = {
     "C05": dict(attr=["C05."], mc=lambda t: mc_store(t), workloads=wl_core, assumptions=COMMON_ASSUME),
     "C06": dict(attr=["C06."], mc=lambda t: mc_store(t) + [_mc("MCStoreB_q.tla", "MCStoreB.cfg"), _mc("MCStoreB_q.tla", "MCStoreB_large.cfg", workers=2, witness="LargeBoundFalse")], workloads=wl_space, assumptions=COMMON_ASSUME),
     "C09": dict(attr=["C09.", "C01.result", "C01.outcome"], mc=lambda t: MC_LAYOUT(t) + mc_store(t), workloads=wl_layout, assumptions=COMMON_ASSUME),
-    "C17": dict(attr=["C17.", "C06.stats_terminate"], mc=lambda t: mc_store(t), workloads=wl_core, assumptions=COMMON_ASSUME),
+    "C17": dict(attr=["C17.", "C06.stats_terminate"], mc=lambda t: mc_store(t),
+                workloads=lambda tier, seed: [("statsync", [gen.gen_stats_sync(seed * 1000 + 30 + i, idbase=(970 + i) * IDSTEP, rounds=12 if tier == "quick" else 60, name="statsync_%d" % i)
+                                                            for i in range(3 if tier == "quick" else 12)], dict(per_tlc=1, tlc_jobs=4))] + wl_core(tier, seed), assumptions=COMMON_ASSUME),
 }
